@@ -873,6 +873,8 @@ MULTI_LINE_MESSAGES = [
     'trailing blank line\n',
     '\nleading blank line',
     '   ^',
+    # characters that str.splitlines() treats as line ends although they are not newlines
+    'page one\x0cpage two', 'carriage\rreturn', 'next\x85line', 'line\u2028separator and paragraph\u2029separator', 'unit\x1fseparator\x1e and record',
 ]
 
 
